@@ -1,7 +1,8 @@
 /- C06 (task Y), second part: the statements of `Proofs/C06Y.lean` that live in the constructor-built world of `Proofs/NonVac.lean`
    (N = 4, q = {97, 113}, t = 17; tool and tables built by the model's constructors): the level / key bundles of C06Y are inhabited
-   there, the general theorems apply (examples), and two findings are witnessed (BGV `mod_switch_to_next` with correction factor t;
-   the oversize product that the model does not refuse).  The general theorems are in `Proofs/C06Y.lean`, which does not import `NonVac`.
+   there, the general theorems apply (examples, incl. the strong closure for the PRIME plain modulus 17), the repaired boundary is
+   witnessed (correction factor t = 17 is rejected, t − 1 = 16 is accepted and survives BGV `mod_switch_to_next`) and so is the oversize
+   product that the model does not refuse.  The general theorems are in `Proofs/C06Y.lean`, which does not import `NonVac`.
    Helper names carry the prefix `c06y_`; the user-facing theorems are at the end under "Property theorems". -/
 import Heathcliff.Proofs.C06Y
 import Heathcliff.Proofs.NonVac
@@ -32,7 +33,7 @@ theorem c06y_nvCt_canon (s : Scheme) (ntt : Bool) (f : Nat) : c05u_CtCanon (c06y
   · exact nv_c0enc_canon
   · exact nv_c1_canon
 
-theorem c06y_nvCt_valid_bgv (ntt : Bool) (f : Nat) (h0 : f ≠ 0) (h17 : f ≤ 17) :
+theorem c06y_nvCt_valid_bgv (ntt : Bool) (f : Nat) (h0 : f ≠ 0) (h17 : f < 17) :
     ctValid (c06y_nvL .bgv) (c06y_nvCt ntt f) true false = true :=
   c06y_valid_mk (Or.inr ⟨Nat.le_refl 2, (by decide : 2 ≤ 16)⟩) (c06y_nvCt_canon .bgv ntt f) (rfl : true = true) ⟨h0, h17⟩
 
@@ -88,18 +89,22 @@ theorem c06y_nvBig_valid : ctValid (c06y_nvL .ckks) c06y_nvBig false false = tru
 
 /-! ### modulus switching, products and balanced add / sub in the world of `Proofs/NonVac.lean` -/
 
-/-- FINDING (validity predicate): BGV `mod_switch_to_next` of a VALID ciphertext with correction factor t = 17 succeeds and returns a
-    ciphertext with correction factor 0, not valid at the next level -/
-theorem modSwitchScaleNext_bgv_needs_cf_ne_t :
-    ∃ ct r, ctValid (c06y_nvL .bgv) ct true false = true ∧ modSwitchScaleNext (c06y_nvL .bgv) ct = .ok r ∧
-      c05u_CtCanon (c06y_nvL1 .bgv) r ∧ ctValid (c06y_nvL1 .bgv) r true false = false := by
-  have hv := c06y_nvCt_valid_bgv true 17 (by decide) (by decide)
-  obtain ⟨r, hr, _, _, _, cr, hiff⟩ := modSwitchScaleNext_bgv_valid_iff (c06y_nvL_wf .bgv) (c06y_nvL_tool .bgv) (c06y_nvL_bgv .bgv)
-    (c06y_nvL_next .bgv) (by decide) rfl hv rfl
-  refine ⟨_, r, hv, hr, cr, ?_⟩
-  cases h : ctValid (c06y_nvL1 .bgv) r true false
-  · rfl
-  · exact absurd rfl (hiff.mp h)
+theorem c06y_nv_prime17 : Nat.Prime (c06y_nvL .bgv).t.value := by
+  show Nat.Prime 17
+  norm_num
+
+/-- the repaired boundary in the constructor-built world (t = 17): the correction factor t is REJECTED, t − 1 = 16 is accepted, and BGV
+    `mod_switch_to_next` of that boundary ciphertext succeeds with a VALID result at the next level.  (Before the repair the factor
+    17 was accepted and the switch returned the invalid factor 0 — the former finding `modSwitchScaleNext_bgv_needs_cf_ne_t`.) -/
+theorem modSwitchScaleNext_bgv_boundary :
+    ctValid (c06y_nvL .bgv) (c06y_nvCt true 17) true false = false ∧
+    ctValid (c06y_nvL .bgv) (c06y_nvCt true 16) true false = true ∧
+    ∃ r, modSwitchScaleNext (c06y_nvL .bgv) (c06y_nvCt true 16) = .ok r ∧ ctValid (c06y_nvL1 .bgv) r true false = true ∧
+      Nat.Coprime r.cf 17 := by
+  have hv := c06y_nvCt_valid_bgv true 16 (by decide) (by decide)
+  obtain ⟨r, hr, hv', _, _, _, hc⟩ := modSwitchScaleNext_bgv_valid_prime (c06y_nvL_wf .bgv) (c06y_nvL_tool .bgv) (c06y_nvL_bgv .bgv)
+    (c06y_nvL_next .bgv) (by decide) rfl c06y_nv_prime17 hv rfl
+  exact ⟨ctValid_rejects_cf_t (l := c06y_nvL .bgv) (ct := c06y_nvCt true 17) rfl, hv, r, hr, hv', hc⟩
 
 /-- the three switching theorems are not vacuous: they apply in the constructor-built world -/
 example : ∃ r, modSwitchScaleNext (c06y_nvL .bfv) (c06y_nvCt false 1) = .ok r ∧ ctValid (c06y_nvL1 .bfv) r true false = true :=
@@ -126,6 +131,19 @@ example : ∃ r, ctTranslateBalanced (c06y_nvL .bgv) (c06y_nvCt true 3) (c06y_nv
   let ⟨r, h, v, _⟩ := ctTranslateBalanced_valid (c06y_nvL_qs .bgv) (fun _ => nv_m17_wf)
     (c06y_nvCt_valid_bgv true 3 (by decide) (by decide)) (c06y_nvCt_valid_bgv true 5 (by decide) (by decide)) true rfl
     (fun _ => ⟨by decide, by decide⟩)
+  ⟨r, h, v⟩
+
+/-- the strong closure for the prime plain modulus 17 is not vacuous: no unit hypothesis is supplied -/
+example : ∃ r, bgvMultiply (c06y_nvL .bgv) (c06y_nvCt true 16) (c06y_nvCt true 16) = .ok r ∧
+    ctValid (c06y_nvL .bgv) r true false = true ∧ r.polys.size = 3 :=
+  let ⟨r, h, v, sz, _⟩ := bgvMultiply_valid_prime (c06y_nvL_qs .bgv) nv_m17_wf c06y_nv_prime17 rfl
+    (c06y_nvCt_valid_bgv true 16 (by decide) (by decide)) (c06y_nvCt_valid_bgv true 16 (by decide) (by decide)) rfl rfl
+    (by decide) (by decide) (by decide)
+  ⟨r, h, v, sz⟩
+example : ∃ r, ctTranslateBalanced (c06y_nvL .bgv) (c06y_nvCt true 16) (c06y_nvCt true 5) false = .ok r ∧
+    ctValid (c06y_nvL .bgv) r true false = true :=
+  let ⟨r, h, v, _⟩ := ctTranslateBalanced_valid_prime (c06y_nvL_qs .bgv) (fun _ => nv_m17_wf) (fun _ => c06y_nv_prime17)
+    (c06y_nvCt_valid_bgv true 16 (by decide) (by decide)) (c06y_nvCt_valid_bgv true 5 (by decide) (by decide)) false rfl
   ⟨r, h, v⟩
 
 /-! ### key switching: `relinearize` and `applyGalois` in the world of `Proofs/NonVac.lean` -/
